@@ -1666,6 +1666,8 @@ class Gen:
                 t2 = cast_of(m.group(1)) or stored_as(m.group(1))
                 if t2 is not None: return (8, t2)
         if t is not None: return (0, t)
+        # no cookie and the storage is used as i64 elements (std::vector<uint64_t>)
+        if re.search(r'= bitcast i8\* ' + re.escape(d) + r' to i64\*', '\n'.join(body)): return (0, ('int', 64))
         # char arrays are used as i8* directly
         return (0, ('int', 8))
     def new_type_hint(self, fg, d, n):
